@@ -86,6 +86,11 @@ def check_context_isolation(A, R: Report, rid: str):
             if isinstance(n, ast.For):
                 loopvars |= {x.id for x in ast.walk(n.target) if isinstance(x, ast.Name)}
         for n in ast.walk(lp):
+            # acc.setdefault(key, <object taken from a context>): the context's own object becomes part of the result
+            if isinstance(n, ast.Call) and isinstance(n.func, ast.Attribute) and n.func.attr == 'setdefault' and len(n.args) == 2:
+                v2 = n.args[1]
+                if (isinstance(v2, ast.Name) and v2.id in loopvars) or (isinstance(v2, ast.Attribute) and isinstance(v2.value, ast.Name) and v2.value.id in loopvars):
+                    alias.append(n)
             if isinstance(n, ast.Assign) and isinstance(n.targets[0], ast.Subscript):
                 v = n.value
                 if (isinstance(v, ast.Name) and v.id in loopvars) or (isinstance(v, ast.Attribute) and isinstance(v.value, ast.Name) and v.value.id in loopvars) \
